@@ -67,13 +67,17 @@ class C15(Prop):
                 ops.append(m)
             if r.chance(1, 3):
                 # one matcher value reused across documents (a table test): an earlier document lacks a path
-                ms = [{"kind": "any", "paths": ["id", "createdAt", "token"], "errOnMissing": False}]
+                kind = r.choice(["any", "type"])
+                ms = [{"kind": kind, "type": "string", "paths": ["id", "createdAt", "token"], "errOnMissing": r.choice([False, False, None])}]
+                if ms[0]["errOnMissing"] is None:
+                    del ms[0]["errOnMissing"]       # default: the first call fails (path missing), the matcher value is reused all the same
                 t = r.choice(G.TEST_NAMES)
                 d_missing = r.choice([b'{"createdAt":"c0","token":"t0","k":1}', b'{"token":"t0"}', b'{"id":"i","token":"t"}'])
                 first = G.op_match_doc("json", 0, t, d_missing, "string", ms)
                 full = {"id": "i1", "createdAt": "c1", "token": "t1", "keep": [1, 2]}
                 second = G.op_match_doc("json", 0, t, json.dumps(full).encode(), "string", ms)
-                second["exp"] = json.dumps({"id": "<Any value>", "createdAt": "<Any value>", "token": "<Any value>", "keep": [1, 2]})
+                ph_ = "<Any value>" if kind == "any" else "<Type:string>"
+                second["exp"] = json.dumps({"id": ph_, "createdAt": ph_, "token": ph_, "keep": [1, 2]})
                 ops += [first, second]
             if r.chance(1, 3):
                 # several paths in one matcher, an absent one listed BEFORE present ones, ErrOnMissingPath(false)
@@ -84,6 +88,33 @@ class C15(Prop):
                 doc = {"token": r.choice(["t1", "secret"]), "user": {"name": "n"}, "n": 1}
                 ph = "<Type:string>" if kind == "type" else "<Any value>"
                 exp = {"token": ph, "user": {"name": ph if "user.name" in paths else "n"}, "n": 1}
+                m = G.op_match_doc("json", 0, t, json.dumps(doc).encode(), "string", ms)
+                m["exp"] = json.dumps(exp)
+                ops.append(m)
+            if r.chance(1, 3):
+                # ONE Any matcher over several existing paths with a placeholder that needs JSON escaping and is not
+                # longer than the values it replaces: every listed path must be replaced, not only the first
+                t = r.choice(G.TEST_NAMES)
+                ph = r.choice(['"\u00abr\u00bb"', '"<\\"x\\">"', '"a\\\\b"', '"\\u0001"', '"\u00e9"'])
+                doc = {"token": "t" * r.range(8, 20), "session": "s" * r.range(8, 20), "id": "i" * r.range(8, 20), "keep": [1, "x"]}
+                paths = r.shuffle(["token", "session", "id"])[: r.range(2, 3)]
+                m = G.op_match_doc(r.choice(["json", "standjson"]), 0, t, json.dumps(doc).encode(), r.choice(["string", "bytes"]),
+                                   [{"kind": "any", "paths": paths, "placeholder": ph}])
+                m["exp"] = json.dumps({k: (json.loads(ph) if k in paths else v) for k, v in doc.items()})
+                ops.append(m)
+            if r.chance(1, 3):
+                # ONE Type matcher whose path list holds an ancestor BEFORE its descendant (left to right: once the ancestor
+                # is replaced the descendant no longer exists; with ErrOnMissingPath(false) it is ignored)
+                t = r.choice(G.TEST_NAMES)
+                if r.chance(1, 2):
+                    doc = {"data": {"attrs": {"a": 1}, "sib": 2}, "n": 1}
+                    ms = [{"kind": "type", "type": "map", "paths": ["data", "data.attrs"], "errOnMissing": False}]
+                    exp = {"data": "<Type:map[string]interface {}>", "n": 1}
+                else:
+                    doc = {"items": [{"id": 1}, {"id": 2.5}], "n": 1}
+                    ms = [{"kind": "type", "type": "slice", "paths": ["items"], "errOnMissing": False},
+                          {"kind": "type", "type": "float64", "paths": ["items.1.id"], "errOnMissing": False}]
+                    exp = {"items": "<Type:[]interface {}>", "n": 1}
                 m = G.op_match_doc("json", 0, t, json.dumps(doc).encode(), "string", ms)
                 m["exp"] = json.dumps(exp)
                 ops.append(m)
